@@ -277,6 +277,58 @@ class Class:
         return "<Class %s>" % self.qual
 
 
+def _splice_starred_displays(fn):
+    """f(*(a, b), c) == f(a, b, c): a starred tuple/list display among the positional arguments is spliced in"""
+    n_done = 0
+    for n in ast.walk(fn):
+        if isinstance(n, ast.Call) and any(isinstance(a, ast.Starred) and isinstance(a.value, (ast.Tuple, ast.List)) and
+                                           not any(isinstance(e, ast.Starred) for e in a.value.elts) for a in n.args):
+            out = []
+            for a in n.args:
+                if isinstance(a, ast.Starred) and isinstance(a.value, (ast.Tuple, ast.List)) and \
+                        not any(isinstance(e, ast.Starred) for e in a.value.elts):
+                    out.extend(a.value.elts)
+                else:
+                    out.append(a)
+            n.args = out
+            n_done += 1
+    return n_done
+
+
+def _with_from_acquire(fn):
+    """`E.acquire(); try: BODY finally: E.release()` (E a plain name / attribute chain, no arguments) is rewritten to
+    `with E: BODY` - the definition of the with statement for locks and conditions. Returns the number of rewrites."""
+    n_done = 0
+
+    def pure(e):
+        while isinstance(e, ast.Attribute):
+            e = e.value
+        return isinstance(e, ast.Name)
+
+    def call_on(st, meth):
+        if isinstance(st, ast.Expr) and isinstance(st.value, ast.Call) and isinstance(st.value.func, ast.Attribute) and \
+                st.value.func.attr == meth and not st.value.args and not st.value.keywords and pure(st.value.func.value):
+            return ast.dump(st.value.func.value)
+        return None
+    for node in ast.walk(fn):
+        for fld in ("body", "orelse", "finalbody"):
+            body = getattr(node, fld, None)
+            if not isinstance(body, list):
+                continue
+            i = 0
+            while i + 1 < len(body):
+                a, t = body[i], body[i + 1]
+                k = call_on(a, "acquire")
+                if k and isinstance(t, ast.Try) and not t.handlers and not t.orelse and len(t.finalbody) == 1 and \
+                        call_on(t.finalbody[0], "release") == k:
+                    w = ast.With(items=[ast.withitem(context_expr=a.value.func.value, optional_vars=None)], body=t.body)
+                    ast.copy_location(w, a)
+                    body[i:i + 2] = [w]
+                    n_done += 1
+                i += 1
+    return n_done
+
+
 class Repo:
     def __init__(self, root=None, package="rpyc", overrides=None, inline=True):
         self.root = os.path.abspath(root or os.environ.get("VERIF_REPO", "/repo"))
@@ -305,7 +357,13 @@ class Repo:
                         text = f.read()
                 self.modules[modname] = Module(modname, path, rel, text, defer=inline)
         self.renamed = []
+        self.unrolled = 0
         if inline:
+            from . import unroll as UR
+            from . import ntuple as NT
+            for m in self.modules.values():
+                self.unrolled += UR.normalise(m.tree)
+                self.unrolled += NT.normalise(m.tree)
             from . import renames as RN
             self.renamed = RN.normalise({n: m.tree for n, m in self.modules.items()})
             for m in self.modules.values():
@@ -351,6 +409,10 @@ class Repo:
                 owner = owner.parent
             n = TI.fold_aliases(f.node, kl.get(q, set()), stable.get(owner.cls.qual, set()) if owner is not None else set())
             n += TI.normalise_function(f.node, kl.get(q, set()))
+            n += _with_from_acquire(f.node)
+            n += _splice_starred_displays(f.node)
+            if owner is not None:
+                n += self._with_self_to_finally(f.node, owner.cls)
             if n:
                 self.folded_temps += n
                 touched.add(f.module.name)
@@ -361,6 +423,52 @@ class Repo:
             for n in ast.walk(m.tree):
                 if not hasattr(n, "_module"):
                     n._module = m
+
+    def _with_self_to_finally(self, fn, cls):
+        """`with self: BODY` inside a method of a class whose __enter__ just returns self and whose __exit__ is the single call
+        `self.m()` (and no subclass in the package overrides either) is `try: BODY finally: self.m()`"""
+        ent = ext = None
+        for c in self.mro(cls):
+            ent = ent or c.methods.get("__enter__")
+            ext = ext or c.methods.get("__exit__")
+        if ent is None or ext is None:
+            return 0
+        if any("__enter__" in sc.methods or "__exit__" in sc.methods for sc in self.subclasses(cls) if sc is not cls):
+            return 0
+
+        def body_of(f_):
+            return [st for st in f_.node.body if not (isinstance(st, ast.Expr) and isinstance(st.value, ast.Constant))]
+        eb, xb = body_of(ent), body_of(ext)
+        rcv_e, rcv_x = A.params(ent.node)[0], A.params(ext.node)[0]
+        if not (len(eb) == 1 and isinstance(eb[0], ast.Return) and isinstance(eb[0].value, ast.Name) and eb[0].value.id == rcv_e):
+            return 0
+        if not (len(xb) == 1 and isinstance(xb[0], ast.Expr) and isinstance(xb[0].value, ast.Call) and
+                isinstance(xb[0].value.func, ast.Attribute) and isinstance(xb[0].value.func.value, ast.Name) and
+                xb[0].value.func.value.id == rcv_x and not xb[0].value.args and not xb[0].value.keywords):
+            return 0
+        meth = xb[0].value.func.attr
+        prm = A.params(fn)
+        if not prm:
+            return 0
+        rcv = prm[0]
+        n_done = 0
+        for node in ast.walk(fn):
+            for fld in ("body", "orelse", "finalbody"):
+                body = getattr(node, fld, None)
+                if not isinstance(body, list):
+                    continue
+                for i, st in enumerate(body):
+                    if isinstance(st, ast.With) and len(st.items) == 1 and st.items[0].optional_vars is None and \
+                            isinstance(st.items[0].context_expr, ast.Name) and st.items[0].context_expr.id == rcv:
+                        call = ast.Expr(value=ast.Call(func=ast.Attribute(value=ast.Name(id=rcv, ctx=ast.Load()), attr=meth,
+                                                                          ctx=ast.Load()), args=[], keywords=[]))
+                        t = ast.Try(body=st.body, handlers=[], orelse=[], finalbody=[call])
+                        ast.copy_location(t, st)
+                        ast.copy_location(call, st)
+                        ast.fix_missing_locations(t)
+                        body[i] = t
+                        n_done += 1
+        return n_done
 
     def _stable_attrs(self):
         """per class: names of methods, and of instance fields that are bound in __init__ only (never rebound anywhere in the
